@@ -15,6 +15,7 @@ def check(tier, replay):
         "C07", tier, replay, rep=rep, spec="VData.tla", mods="ops_h,ops_v", trace=("Trace_VData.tla", "Trace_VData.cfg"),
         mc=[("MC_VData.tla", "MC_VData.cfg")],
         gens=[("one behaviour per transition (4 schemas, <=4 records)", "Gen_VData.tla", "Gen_VData_cover.cfg", "cover", {"sample": 25000}),
+              ("every history of <= 4 calls after creation (write, seek, read, detach/attach, reopen in between)", "Gen_VData.tla", "Gen_VData_hist.cfg", "cover", {"sample": 4000}),
               ("simulate depth 30 (<=40 records, block sizes 4..64)", "Gen_VData.tla", "Gen_VData_sim.cfg", "sim", {"num_quick": 2500, "num": 60000, "depth": 31})],
         mutators={"Create", "Write", "Seek", "SetFields", "Detach", "Attach", "Bump"},
         need_actions=["Write", "Seek", "Read", "Inquire", "Detach", "Attach"],
